@@ -210,6 +210,11 @@ class Cfg:
         return [c for c in cat for _ in range(w.get(c[1], 1))]
 
 
+# ADC amplitude vectors live on occupied/virtual indices only (the library
+# asserts this when it names their blocks)
+NO_GENERAL = {"X", "Y"}
+
+
 def _antisym_conflict(objs, s1, s2):
     """Would giving slots s1, s2 the same label make the object vanish or
     degenerate?  slot = (obj index, group, position)"""
@@ -304,6 +309,8 @@ def st_term_for_targets(draw, cfg, targets, spin_mode, general, numbered,
         cand = todo[0]
         # two targets of incompatible class on one delta -> delta vanishes
         o = objs[s[0]]
+        if o["name"] in NO_GENERAL and label_class(cand)[0] == "general":
+            continue
         if o["k"] == "K":
             other = label.get((s[0], "u", 1 - s[2]))
             if other is not None and not _delta_ok(other, cand):
@@ -337,6 +344,8 @@ def st_term_for_targets(draw, cfg, targets, spin_mode, general, numbered,
             sp = "virt" if s[1] == "u" else "occ"
             if o["name"] in ("X", "Y") and len(o["u"]) + len(o["l"]) > 0:
                 sp = "virt" if s[1] == "u" else "occ"
+        elif o["name"] in NO_GENERAL:
+            sp = draw(st.sampled_from(["occ", "virt"]))
         else:
             sp = draw(st.sampled_from(spaces))
         spin = _draw_spin(draw, spin_mode)
